@@ -299,6 +299,11 @@ let () =
             | Some v when v.op = s.op ->
               let pv = is_panic v.res and ps = is_panic s.res in
               if pv <> ps then report_spec ~prop:"C13" ~pred:"panics_like_std" ~detail:(v.res ^ "_vs_std_" ^ s.res)
+              else if pv && v.res = s.res && v.res <> "panic:callback" then begin
+                (* a call refused for its arguments (index, capacity) leaves the vector as std leaves it *)
+                if v.contents <> s.contents then report_spec ~prop:"C13" ~pred:"refused_call_leaves_vector_like_std" ~detail:(show_ids v.contents ^ "_vs_std_" ^ show_ids s.contents);
+                if sorted v.drops <> sorted s.drops then report_spec ~prop:"C15" ~pred:"refused_call_drops_like_std" ~detail:(show_ids v.drops ^ "_vs_std_" ^ show_ids s.drops)
+              end
               else if not pv then begin
                 if v.res <> s.res then report_spec ~prop:"C13" ~pred:"returns_like_std" ~detail:(v.res ^ "_vs_std_" ^ s.res);
                 if v.contents <> s.contents then report_spec ~prop:"C13" ~pred:"contents_like_std" ~detail:(show_ids v.contents ^ "_vs_std_" ^ show_ids s.contents);
